@@ -84,7 +84,7 @@ pub fn params<const L: usize, S: Src>(s: &mut S) -> R {
             (1, 0)
         };
         crate::note!("  call {} required {} -> {:?}; expected class {} kind {}", k, required, got, want, want_kind);
-        witness!(want == 0 && k == 1, "params: a second parameter");
+        witness!(want == 0 && pos >= 2, "params: a parameter after a separator");
         witness!(want == 2, "params: missing parameter");
         match got {
             Ok(Some(t)) => {
